@@ -14,7 +14,7 @@ vars == <<stage, model, layout, dmg, st>>
 NoLayout == [perm |-> 1, inst |-> 1, sect |-> 1, split |-> 1, ws |-> FALSE]
 Init == stage = "start" /\ model = <<>> /\ layout = NoLayout /\ dmg = <<"none">> /\ st = <<>>
 PickModel == stage = "start" /\ stage' = "m" /\ model' \in Models /\ UNCHANGED <<layout, dmg, st>>
-PickLayout == stage = "m" /\ layout' \in Layouts /\ stage' = (IF Mode = "intact" THEN "doc" ELSE "l") /\ UNCHANGED <<model, dmg, st>>
+PickLayout == stage = "m" /\ layout' \in LayoutsFor(model) /\ stage' = (IF Mode = "intact" THEN "doc" ELSE "l") /\ UNCHANGED <<model, dmg, st>>
 Doc == Render(model, layout)
 PickDamage == stage = "l" /\ LET n == Len(AllToks(Doc)) IN
                  \E d \in {<<"cut", c>> : c \in 0..n} \cup {<<"del", c>> : c \in 1..n} \cup {<<"attr", c>> : c \in {k \in 1..n : AllToks(Doc)[k].k \in {"S", "M"} /\ (IsSome(AllToks(Doc)[k].id) \/ IsSome(AllToks(Doc)[k].ref) \/ IsSome(AllToks(Doc)[k].base))}} :
